@@ -581,6 +581,8 @@ func Run(s *simrt.Sim, a *harness.Args, r *harness.Result) {
 		switch a.Prop {
 		case "C05":
 			w.oracleC05()
+		case "C06":
+			w.oracleQuarantine()
 		case "C11":
 			w.oracleLimits()
 		case "C16":
@@ -751,6 +753,29 @@ func (w *world) oracleC05() {
 				}
 				if !exterrors.IsTemporary(err) {
 					s.Violate("C05/discovery-failure-not-deferred/permanent", "MX lookup failed temporarily, yet recipient %s of %s got a permanent error: %s", r, m.id, errSummary(err))
+				}
+			}
+		}
+	}
+}
+
+// oracleQuarantine (the remote-target clause of C06): a message flagged as
+// quarantined - from the start or only at the body stage - is refused by the
+// remote target on every path (per-recipient and atomic body).
+func (w *world) oracleQuarantine() {
+	byID := map[string]*rmsg{}
+	for _, m := range w.msgs {
+		byID[m.id] = m
+	}
+	for _, mx := range w.mxs {
+		for _, tx := range mx.mx.Received() {
+			for id, m := range byID {
+				if (m.quarantine || m.quarantineLate) && bytes.Contains(tx.Data, []byte("X-Sim-Msg: "+id+"\r\n")) {
+					path := "per-recipient"
+					if m.atomic {
+						path = "atomic"
+					}
+					w.s.Violate("C06/quarantine-relayed/"+path, "message %s is flagged as quarantined (late=%v), yet %s received it (transaction %d on connection #%d)", id, m.quarantineLate, mx.host, tx.ConnTxN, tx.ConnID)
 				}
 			}
 		}
